@@ -166,6 +166,12 @@ def mk_shape(spec):
         return tuple(getattr(np, t[8:])(d) for d in v)
     if t.startswith('arr:'):
         return np.array(v, dtype=t[4:])
+    if t == 'mixed':        # a tuple whose ELEMENTS differ in type (R10)
+        kinds = [int, np.int8, np.uint64, np.intp, lambda d: np.array(d, dtype=np.int16), np.uint8]
+        return tuple((bool(d) if (d == 1 and i % 3 == 2) else kinds[i % len(kinds)](d)) for i, d in enumerate(v))
+    if t == 'mixedlist':
+        kinds = [np.int32, int, np.uint16]
+        return [kinds[i % 3](d) for i, d in enumerate(v)]
     if t == 'neg':
         return tuple(int(d) for d in v)
     if t == 'negint':
@@ -190,7 +196,7 @@ def shape_value(spec):
     t, v = spec['t'], spec.get('v')
     if t.startswith('np:'):
         return 'ok', (int(v),)
-    if t == 'list' or t.startswith('nptuple:') or t.startswith('arr:'):
+    if t in ('list', 'mixed', 'mixedlist') or t.startswith('nptuple:') or t.startswith('arr:'):
         return 'ok', tuple(int(d) for d in v)
     if t in ('neg', 'negint'):
         return 'reject', 'ValueError'
@@ -208,7 +214,7 @@ def shape_tok(spec):
     t, v = spec['t'], spec.get('v')
     if t.startswith('np:') or t == 'negint':
         return 'i%d' % int(v)
-    if t in ('list', 'neg') or t.startswith('nptuple:') or t.startswith('arr:'):
+    if t in ('list', 'neg', 'mixed', 'mixedlist') or t.startswith('nptuple:') or t.startswith('arr:'):
         return 't' + ';'.join(str(int(d)) for d in v)
     return 'x'
 
@@ -898,6 +904,175 @@ def o_lifecycle(case):
     return None
 
 
+def o_ctor_setter(case):
+    """R8: a generator configured through the constructor and one configured through the setter (built
+    with another shape first), given the same phase draws, are the same generator: same shape attribute,
+    same outputs for the same later requests; int n and the tuple (n,) are the same shape"""
+    try:
+        rec = RecordingRS(case['seed'])
+        A = make_gen(case, rs=rec)
+        junk = RecordingRS(int(case['seed']) + 7)
+        B0 = make_gen(dict(case, shape=case['shape0']), rs=junk)
+        B = make_gen(dict(case, shape=case['shape0']), rs=ReplayRS(junk.draws + rec.draws))
+        B.shape = mk_shape(case['shape'])
+        del B0
+        k = 1
+        reg = regime(1, 1)
+        tag = 'shape0=%s,shape=%s' % (shape_tok(case['shape0']) if not isinstance(case['shape0'], dict) else case['shape0']['t'],
+                                      shape_tok(case['shape']) if not isinstance(case['shape'], dict) else case['shape']['t'])
+        if A.shape != B.shape:
+            return 'ctor-vs-setter:shape-attribute:%s:%s' % (tag, reg), '%r vs %r' % (A.shape, B.shape)
+        if not (np.array_equal(A._phi_l, B._phi_l) and np.array_equal(A._psi_l, B._psi_l)):
+            return 'ctor-vs-setter:phases:%s:%s' % (tag, reg), 'same draws, different phases'
+        for kind, arg in case['ops']:
+            call_size_op(A, kind, arg)
+            call_size_op(B, kind, arg)
+            n = size_value(arg)[1]
+            if kind == 'g' and not np.array_equal(A.get_samples(), B.get_samples()):
+                return 'ctor-vs-setter:samples:%s:%s' % (tag, regime(k, max(n, 1))), \
+                    'request of %d at sample %d differs between constructor path and setter path' % (n, k)
+            k += n
+    except Exception as e:
+        return 'exception:%s:ctor-vs-setter' % type(e).__name__, repr(e)[:300]
+    return None
+
+
+def o_wrapper(case):
+    """R8: entry points documented as the same model agree — the generator's next request and the free
+    function generate_jakes_samples given the generator's parameters, phases and time (every argument
+    must be forwarded / honoured: called positionally, by keyword, mixed); the function with its phases
+    left out draws them from numpy's global generator with the requested shape; its defaults are the
+    documented ones"""
+    fg = _impl()
+    Fd, Ts, L, n = case['Fd'], case['Ts'], int(case['L']), int(case['tail'])
+    form = case.get('call')
+    try:
+        g = make_gen(case)
+        k = 1
+        shape = norm_shape(case['shape'])
+        for kind, arg in case['ops']:
+            if kind == 'S':
+                g.shape = mk_shape(arg)
+                shape = norm_shape(arg)
+            else:
+                call_size_op(g, kind, arg)
+                k += size_value(arg)[1]
+        reg = ('call=%s:' % form if form else '') + regime(k, n)
+        g.generate_more_samples(n)
+        hg = g.get_samples()
+        ct = k * Ts
+        if form == 'kw':
+            nt, hf = fg.generate_jakes_samples(psi_l=g._psi_l, phi_l=g._phi_l, current_time=ct, shape=shape, L=L,
+                                               NSamples=n, Ts=Ts, Fd=Fd)
+        elif form == 'mixed':
+            nt, hf = fg.generate_jakes_samples(Fd, Ts, n, current_time=ct, phi_l=g._phi_l, psi_l=g._psi_l, L=L,
+                                               shape=shape)
+        else:
+            nt, hf = fg.generate_jakes_samples(Fd, Ts, n, L, shape, ct, g._phi_l, g._psi_l)
+        tol = 2 * tol_for(L, Fd, (k + n) * Ts)
+        if hf.shape != hg.shape or hf.dtype != hg.dtype:
+            return 'wrapper-shape:' + reg, 'function %s %s vs generator %s %s' % (hf.shape, hf.dtype, hg.shape, hg.dtype)
+        err = float(np.max(np.abs(hf - hg))) if hg.size else 0.0
+        if not err <= tol:
+            return 'wrapper-mismatch:' + reg, ('generate_jakes_samples at time %r differs from the generator at '
+                                               'sample %d by %.3g (tol %.3g)' % (ct, k, err, tol))
+        if not abs(nt - (k + n) * Ts) <= 1e-9 * (k + n) * Ts:
+            return 'wrapper-next-time:' + reg, '%r vs %r' % (nt, (k + n) * Ts)
+        # phases left out: drawn from numpy's global generator with shape (L, *shape, 1); shape is honoured
+        seed = int(case['seed']) % (1 << 31)
+        np.random.seed(seed)
+        dims = (L, 1) if shape is None else (L,) + shape + (1,)
+        phi, psi = np.random.rand(*dims), np.random.rand(*dims)
+        np.random.seed(seed)
+        if form == 'kw':
+            nt, hd = fg.generate_jakes_samples(Fd=Fd, Ts=Ts, NSamples=n, L=L, shape=shape, current_time=ct)
+        else:
+            nt, hd = fg.generate_jakes_samples(Fd, Ts, n, L, shape, ct)
+        exp_shape = (n,) if shape is None else shape + (n,)
+        if hd.shape != exp_shape:
+            return 'function-default-phases:shape:' + reg, '%s != %s' % (hd.shape, exp_shape)
+        ref = ref_values(Fd, Ts, phi, psi, k + np.arange(n))
+        if hd.size and float(np.max(np.abs(hd - ref))) > tol:
+            return 'function-default-phases:value:' + reg, 'not the Jakes sum for the phases drawn'
+        # documented defaults: Ts=1e-3, NSamples=100, L=8, shape=None, current_time=0
+        np.random.seed(seed)
+        nt1, h1 = fg.generate_jakes_samples(Fd)
+        np.random.seed(seed)
+        nt2, h2 = fg.generate_jakes_samples(Fd, 1e-3, 100, 8, None, 0, None, None)
+        if h1.shape != (100,) or not np.array_equal(h1, h2) or nt1 != nt2:
+            return 'function-defaults:' + reg, 'defaults are not Ts=1e-3, NSamples=100, L=8, shape=None, current_time=0'
+    except Exception as e:
+        return 'exception:%s:wrapper' % type(e).__name__, repr(e)[:300]
+    return None
+
+
+def o_derived(case):
+    """R13: an object derived from a generator (copy, deepcopy, pickle round trip, similar generator) and
+    its parent, both used and reconfigured afterwards in interleaved order, behave like two generators
+    that were never related: the parent like a twin that ran pre + parent calls, the child like a twin
+    that ran pre + child calls (similar generator: like a fresh generator of the parent's configuration at
+    the time it was derived); a second round trip of the child gives back the child"""
+    how = case['how']
+    L = int(case['L'])
+
+    def run(g, ops, outs):
+        for kind, arg in ops:
+            if kind == 'S':
+                g.shape = mk_shape(arg)
+            elif kind == 'Q':
+                do_query(g, arg)
+            else:
+                call_size_op(g, kind, arg)
+                if kind == 'g':
+                    outs.append(g.get_samples())
+
+    try:
+        pre, par, chi = case['ops'], case['parent'], case['child']
+        kpre = 1 + sum(size_value(o[1])[1] for o in pre if o[0] in 'gs')
+        reg = 'how=%s:%s' % (how, regime(kpre, 1))
+        g = make_gen(case)
+        run(g, pre, [])
+        child = derive(g, how)
+        shape_at_fork = g.shape
+        outs_p, outs_c = [], []
+        # interleave: parent call, child call, ...
+        for i in range(max(len(par), len(chi))):
+            if i < len(par):
+                run(g, par[i:i + 1], outs_p)
+            if i < len(chi):
+                run(child, chi[i:i + 1], outs_c)
+        tp = make_gen(case)
+        exp_p = []
+        run(tp, pre, [])
+        run(tp, par, exp_p)
+        if len(exp_p) != len(outs_p) or not all(np.array_equal(x, y) for x, y in zip(outs_p, exp_p)):
+            return 'parent-changed-by-child:' + reg, 'the parent returns other samples than a generator that never had a child'
+        if tp.shape != g.shape or not np.array_equal(tp._phi_l, g._phi_l):
+            return 'parent-changed-by-child:' + reg, 'shape / phases of the parent differ from the unrelated twin'
+        if how == 'similar':
+            if child.shape != shape_at_fork or child.Fd != g.Fd or child.Ts != g.Ts or child.L != g.L:
+                return 'child-config:' + reg, 'similar generator has shape %r, parent had %r' % (child.shape, shape_at_fork)
+            return None
+        tc = make_gen(case)
+        exp_c = []
+        run(tc, pre, [])
+        run(tc, chi, exp_c)
+        if len(exp_c) != len(outs_c) or not all(np.array_equal(x, y) for x, y in zip(outs_c, exp_c)):
+            return 'child-changed-by-parent:' + reg, ('the %s returns other samples than a generator that ran the '
+                                                      'same calls and was never derived' % how)
+        if tc.shape != child.shape:
+            return 'child-changed-by-parent:' + reg, 'shape %r vs %r' % (child.shape, tc.shape)
+        # a further round trip of the child gives back the child (not the parent)
+        again = derive(child, 'pickle')
+        again.generate_more_samples(3)
+        tc.generate_more_samples(3)
+        if again.shape != tc.shape or not np.array_equal(again.get_samples(), tc.get_samples()):
+            return 'child-round-trip:' + reg, 'pickle round trip of the child does not continue like the child'
+    except Exception as e:
+        return 'exception:%s:derived:how=%s' % (type(e).__name__, how), repr(e)[:300]
+    return None
+
+
 def o_chunking(case):
     """one request for the whole stretch vs an arbitrary chunking with skips
     (same phases): the chunked generator must return the same samples"""
@@ -1017,6 +1192,11 @@ def vary_array(x, mode):
         return x.tolist()
     if mode == 'float32':
         return x.astype(np.float32)
+    if mode == 'int':
+        return x.astype(np.int16)
+    if mode == 'nested':        # a list whose rows are lists, tuples and arrays in turn
+        rows = [x[i] for i in range(x.shape[0])]
+        return [r.tolist() if i % 3 == 0 else tuple(r.tolist()) if i % 3 == 1 else r for i, r in enumerate(rows)]
     raise ValueError(mode)
 
 
@@ -1032,8 +1212,9 @@ def o_function(case):
     shape = norm_shape(case['shape'])
     k0 = int(case['k0'])
     ct = k0 * Ts
-    tag = ','.join(x for x in ['arr=' + mode if mode else '',
-                               'N=' + size_dtype(case['N']) if size_dtype(case['N']) else ''] if x)
+    tag = ','.join(x for x in ['arr=' + mode + ('/' + case['arr_psi'] if case.get('arr_psi') else '') if mode else '',
+                               'N=' + size_dtype(case['N']) if size_dtype(case['N']) else '',
+                               'call=' + case['call'] if case.get('call') else ''] if x)
     reg = (tag + ':' if tag else '') + regime(k0, max(N, 1))
     rs = np.random.RandomState(int(case['seed']))
     dims = (L, 1) if shape is None else (L,) + shape + (1,)
@@ -1041,15 +1222,38 @@ def o_function(case):
     psi = TWO_PI * rs.rand(*dims)
     if mode == 'float32':       # the float32 values are the logical phases
         phi, psi = phi.astype(np.float32).astype(np.float64), psi.astype(np.float32).astype(np.float64)
-    phi_in, psi_in = vary_array(phi, mode), vary_array(psi, mode)
+    mode_psi = case.get('arr_psi', mode)
+    if mode_psi == 'float32' and mode != 'float32':
+        psi = psi.astype(np.float32).astype(np.float64)
+    if mode == 'float32' and mode_psi != 'float32':
+        psi = TWO_PI * np.random.RandomState(int(case['seed']) + 1).rand(*dims)
+    if mode == 'int':           # integer-valued phases in an integer array next to a float array
+        phi = np.floor(phi)
+    if mode_psi == 'int':
+        psi = np.floor(psi)
+    phi_in, psi_in = vary_array(phi, mode), vary_array(psi, mode_psi)
     snap = (np.array(phi_in, copy=True), np.array(psi_in, copy=True))
     try:
-        new_ct, h = fg.generate_jakes_samples(Fd, Ts, mk_size(case['N']), L, shape, ct, phi_in, psi_in)
+        form = case.get('call')
+        kw = {'Fd': Fd, 'Ts': Ts, 'NSamples': mk_size(case['N']), 'L': L, 'shape': shape, 'current_time': ct,
+              'phi_l': phi_in, 'psi_l': psi_in}
+        if form == 'kw':
+            new_ct, h = fg.generate_jakes_samples(**{k: kw[k] for k in sorted(kw, reverse=True)})
+        elif form == 'mixed':
+            new_ct, h = fg.generate_jakes_samples(Fd, Ts, psi_l=psi_in, phi_l=phi_in, current_time=ct, shape=shape,
+                                                  L=L, NSamples=kw['NSamples'])
+        elif form == 'omit-defaults':
+            dflt = {'Ts': 1e-3, 'NSamples': 100, 'L': 8, 'shape': None, 'current_time': 0}
+            new_ct, h = fg.generate_jakes_samples(**{k: v for k, v in kw.items() if not (
+                k in dflt and not isinstance(v, np.generic) and type(v) in (int, float, type(None))
+                and v == dflt[k])})
+        else:
+            new_ct, h = fg.generate_jakes_samples(Fd, Ts, kw['NSamples'], L, shape, ct, phi_in, psi_in)
     except Exception as e:
         return 'exception:%s:%s' % (type(e).__name__, reg), repr(e)[:300]
     if not (np.array_equal(np.asarray(phi_in), snap[0]) and np.array_equal(np.asarray(psi_in), snap[1])):
         return 'input-modified:' + reg, 'phi_l / psi_l were changed by the call'
-    if isinstance(phi_in, np.ndarray) and h.size and (np.shares_memory(h, phi_in) or np.shares_memory(h, psi_in)):
+    if h.size and any(isinstance(x, np.ndarray) and np.shares_memory(h, x) for x in (phi_in, psi_in)):
         return 'output-aliases-input:' + reg, 'the returned samples share memory with phi_l / psi_l'
     exp_shape = (N,) if shape is None else shape + (N,)
     if h.shape[-1:] != (N,):
@@ -1064,7 +1268,7 @@ def o_function(case):
     ref = ref_values(Fd, Ts, phi, psi, k0 + js)
     # the function's time origin is the float ct = fl(k0*Ts): one more rounding of the time
     tol = 2 * tol_for(L, Fd, (k0 + N) * Ts)
-    if mode == 'float32':
+    if mode == 'float32' or case.get('arr_psi') == 'float32':
         tol += 2 * math.sqrt(L) * float(np.finfo(np.float32).eps) * (TWO_PI * abs(Fd) * (k0 + N) * Ts + TWO_PI)
     err = float(np.max(np.abs(h[..., js] - ref))) if h.size else 0.0
     if not err <= tol:
@@ -1076,6 +1280,9 @@ ORACLES = {
     'generate_more_samples': o_history,
     'generate_more_samples.twin': o_twin,
     'generate_more_samples.lifecycle': o_lifecycle,
+    'JakesSampleGenerator.ctor_vs_setter': o_ctor_setter,
+    'generate_jakes_samples.vs_generator': o_wrapper,
+    'generate_more_samples.derived': o_derived,
     'generate_more_samples.chunking': o_chunking,
     'generate_more_samples.zero_doppler': o_zero_doppler,
     'generate_more_samples.magnitude': o_magnitude,
@@ -1291,7 +1498,7 @@ def typed_shape_cases(rng):
 
 
 def has_caller_list(case):
-    return any(isinstance(sp, dict) and sp['t'] == 'list'
+    return any(isinstance(sp, dict) and sp['t'] in ('list', 'mixedlist')
                for sp in [case.get('shape')] + [o[1] for o in case.get('ops', []) if o[0] == 'S'])
 
 
@@ -1400,6 +1607,152 @@ def valid_int_history(rng, n_ops=None):
     cfg = gen_config(rng)
     cfg['ops'] = gen_ops(rng, cfg, n_ops or rng.randint(1, 8))
     return cfg
+
+
+# ---- second robustness round (R8 .. R14) ----
+EXTRA_INT = ('intp', 'uintp', 'longlong', 'ulonglong', 'short', 'ushort', 'intc', 'uintc', 'byte', 'ubyte')
+
+
+def count_type_cases(rng):
+    """R9: counts carried by the remaining numpy integer names (intp, longlong, short, intc, byte, ... and
+    their unsigned twins), values above 256 wherever the type allows, positions crossing the type's range"""
+    out = []
+    for dt in EXTRA_INT:
+        mx = int(np.iinfo(dt).max)
+        if mx < 1000:
+            sizes = (mx - 27, 100, 30)
+        elif mx < 100000:
+            sizes = (mx - 5000, 9000, 300)
+        elif mx < (1 << 33):
+            sizes = (mx - 12, 20, 300)
+        else:
+            sizes = (70000, 300, 257)
+        ops = [['s', {'t': dt, 'v': sizes[0]}], ['g', {'t': dt, 'v': sizes[1]}], ['g', 5],
+               ['g', {'form': 'kw', 'a': {'t': dt, 'v': sizes[2]}}], ['s', {'t': dt, 'v': sizes[2]}], ['g', None]]
+        out.append(small_cfg(rng, L=rng.choice([1, 2]), shape=rng.choice([None, 2]), ops=ops))
+    return out
+
+
+def count_scale_cases(rng, quick):
+    """R14: 257 / 258 / 300 rays, 257 / 300 / 2^16+1 entries, a 12-dimensional shape"""
+    ops = [['g', 3], ['s', 300], ['g', None], ['g', 2]]
+    out = [small_cfg(rng, L=257, shape=None, ops=ops), small_cfg(rng, L=1, shape=[258], ops=ops),
+           small_cfg(rng, L=1, shape=[65537], ops=[['g', 2], ['s', 70000], ['g', None]]),
+           small_cfg(rng, L=2, shape=[1] * 12, ops=ops)]
+    if not quick:
+        out += [small_cfg(rng, L=258, shape=2, ops=ops), small_cfg(rng, L=300, shape=[2, 1], ops=ops),
+                small_cfg(rng, L=2, shape=[257], ops=ops), small_cfg(rng, L=3, shape=[300], ops=ops),
+                small_cfg(rng, L=2, shape=[17, 257], ops=ops), small_cfg(rng, L=65537, shape=None, ops=[['g', 2], ['g', None]])]
+    return out
+
+
+def mixed_shape_cases(rng):
+    """R10: shapes whose ELEMENTS differ in type (int, np.int8, np.uint64, np.intp, 0-d array, np.uint8, bool)"""
+    out = []
+    for v in ([2, 1, 3], [1, 1, 1], [3], [2, 2, 1, 2, 1, 2, 1]):
+        for t in ('mixed', 'mixedlist'):
+            sp = {'t': t, 'v': v}
+            out.append(small_cfg(rng, L=2, shape=sp, ops=[['g', 2], ['S', 2], ['g', 1], ['S', sp], ['g', 3], ['S', sp], ['g', None]]))
+    return out
+
+
+def forms_case(rng, case):
+    """R8: every call in a random documented argument form, constructor included"""
+    ops = []
+    for kind, arg in case['ops']:
+        if kind == 'g' and arg is None and rng.chance(0.5):
+            arg = rng.choice([{'form': 'none', 'a': None}, {'form': 'kw', 'a': None}, 1, {'form': 'kw', 'a': 1}])
+            if isinstance(arg, dict) and arg['form'] == 'kw' and arg['a'] is None:
+                arg = {'form': 'none', 'a': None}       # generate_more_samples(num_samples=None) is the explicit None
+        elif kind in 'gs' and rng.chance(0.6):
+            arg = {'form': 'kw', 'a': arg}
+        ops.append([kind, arg])
+    out = dict(case, ops=ops)
+    form = rng.choice(['kw', 'kw-shuffled', 'mixed', 'omit-defaults', 'omit-defaults', 'global-rs'])
+    if form == 'omit-defaults':
+        for k in rng.choice([['Fd'], ['Ts'], ['L'], ['shape'], ['Fd', 'Ts', 'L', 'shape'], ['Ts', 'L'], ['Fd', 'shape']]):
+            out[k] = DEFAULTS[k]
+    if isinstance(out['seed'], dict):
+        out['seed'] = rng.below(1 << 31)
+    out['ctor'] = form
+    return out
+
+
+def query_case(rng, case):
+    """R11: calls of the non-mutating API between the requests"""
+    ops = []
+    names = [q for q in QUERIES]
+    for op in case['ops']:
+        while rng.chance(0.45):
+            ops.append(['Q', rng.choice(names)])
+        ops.append(op)
+    ops.append(['Q', rng.choice(names)])
+    ops.append(['g', rng.randint(1, 4)])
+    out = dict(case, ops=ops)
+    if isinstance(out['seed'], dict):
+        out['seed'] = rng.below(1 << 31)
+    return out
+
+
+def all_queries_case(rng):
+    ops = []
+    for q in QUERIES:
+        ops += [['Q', q], ['g', rng.choice([None, 2])]]
+    ops += [['S', [2, 1]]] + [['Q', q] for q in QUERIES] + [['g', 3], ['s', 4], ['g', None]]
+    return small_cfg(rng, Fd=37.25, Ts=0.37e-4, L=4, shape=2, ops=ops)
+
+
+def light_ops(rng, n, with_shape):
+    ops = []
+    for _ in range(n):
+        r = rng.uniform()
+        if with_shape and r < 0.25:
+            ops.append(['S', gen_shape(rng)])
+        elif r < 0.45:
+            ops.append(['s', rng.randint(0, 5000)])
+        elif r < 0.55:
+            ops.append(['Q', rng.choice(QUERIES)])
+        else:
+            ops.append(['g', rng.choice([None, rng.randint(1, 40)])])
+    return ops
+
+
+def derived_case(rng, how=None):
+    """R13: parent history, a derived object, then both are used and reconfigured"""
+    how = how or rng.choice(['copy', 'deepcopy', 'pickle', 'similar'])
+    cfg = gen_config(rng)
+    if isinstance(cfg['seed'], dict):
+        cfg['seed'] = rng.below(1 << 31)
+    cfg['L'] = min(cfg['L'], 8)
+    cfg['ops'] = light_ops(rng, rng.randint(0, 5), True)
+    sh = how != 'copy'
+    cfg.update({'how': how, 'parent': light_ops(rng, rng.randint(1, 5), sh) + [['g', 2]],
+                'child': light_ops(rng, rng.randint(1, 5), sh and how != 'similar') + [['g', 3]]})
+    return cfg
+
+
+def fork_case(rng, how):
+    """the same for the correspondence: a fork inside one history"""
+    cfg = derived_case(rng, how)
+    pre = cfg.pop('ops')
+    par = cfg.pop('parent')
+    cfg['ops'] = pre + par
+    cfg['fork'] = {'at': len(pre), 'how': how, 'child': cfg.pop('child')}
+    cfg.pop('how')
+    return cfg
+
+
+def robustness2_cases(rng, n_each, quick):
+    out = [('R9-count-types', c) for c in count_type_cases(rng)]
+    out += [('R14-count-scale', c) for c in count_scale_cases(rng, quick)]
+    out += [('R10-mixed-shape', c) for c in mixed_shape_cases(rng)]
+    out.append(('R11-queries', all_queries_case(rng)))
+    for _ in range(n_each):
+        out.append(('R8-forms', forms_case(rng, valid_int_history(rng))))
+        out.append(('R8-forms', forms_case(rng, typed_sizes(rng, valid_int_history(rng)))))
+        out.append(('R11-queries', query_case(rng, valid_int_history(rng, rng.randint(1, 6)))))
+        out.append(('R11-queries', query_case(rng, forms_case(rng, valid_int_history(rng, rng.randint(1, 5))))))
+    return out
 
 
 def robustness_cases(rng, n_each):
@@ -1659,6 +2012,27 @@ def robustness_branches(ctx, c, where):
         ctx.branch(where + ':R5-degenerate-parameter')
     if c.get('scale_exp10'):
         ctx.branch(where + ':R6-scale')
+    if any(o[0] in 'gs' and unform(o[1])[0] for o in ops):
+        ctx.branch(where + ':R8-call-forms')
+    if c.get('ctor'):
+        ctx.branch(where + ':R8-ctor-form:' + c['ctor'])
+    if ops and ops[0][0] == 'S' and shape_value(ops[0][1])[0] == 'ok':
+        ctx.branch(where + ':R8-setter-path-first')
+    for a in sizes:
+        dt = size_dtype(a)
+        if dt in EXTRA_INT:
+            ctx.branch(where + ':R9-count-type:' + dt)
+        if dt and size_value(a)[0] == 'ok' and size_value(a)[1] > 256:
+            ctx.branch(where + ':R9-typed-count>256')
+    if any(isinstance(sp, dict) and sp['t'] in ('mixed', 'mixedlist') for sp in [c.get('shape')] + [o[1] for o in ops if o[0] == 'S']):
+        ctx.branch(where + ':R10-mixed-shape')
+    for o in ops:
+        if o[0] == 'Q':
+            ctx.branch(where + ':R11-queries')
+            ctx.branch(where + ':R11-query:' + o[1])
+    if int(c.get('L', 0)) >= 257 or any(shape_value(sp)[0] == 'ok' and shape_value(sp)[1] and max(shape_value(sp)[1]) >= 257
+                                       for sp in [c.get('shape')]):
+        ctx.branch(where + ':R14-count-scale')
     if sum(1 for o in ops if o[0] == 'S') >= 2:
         ctx.branch(where + ':R7-repeated-shape-assignment')
     return json.dumps([c.get('shape'), ops, c.get('types'), c.get('scale_exp10')], sort_keys=True, default=str)
@@ -1707,7 +2081,7 @@ def correspondence(ctx, cases):
         ctx.branch('corr:R3-outputs-intact-after-later-calls')
         for o in c['ops']:
             ctx.branch('op:' + ('gen-default' if (o[0] == 'g' and o[1] is None) else
-                                {'g': 'gen', 's': 'skip', 'S': 'set-shape'}[o[0]]))
+                                {'g': 'gen', 's': 'skip', 'S': 'set-shape', 'Q': 'query'}[o[0]]))
         ctx.branch('shape:' + ('none' if c['shape'] is None else 'int' if isinstance(c['shape'], int) else
                                'typed' if isinstance(c['shape'], dict) else 'tuple%d' % len(c['shape'])))
         if impl != model:
@@ -1869,6 +2243,61 @@ ROBUST_BRANCHES = [w + b for w in ('corr', 'oracle') for b in (
     'oracle:R1R2R3-function-inputs', 'oracle:R5-Ts=0', 'oracle:R1-typed-chunks']
 
 
+ROBUST2_BRANCHES = [w + b for w in ('corr', 'oracle') for b in (
+    [':R8-call-forms', ':R8-setter-path-first', ':R9-typed-count>256', ':R10-mixed-shape', ':R11-queries',
+     ':R14-count-scale']
+    + [':R8-ctor-form:' + f for f in ('kw', 'kw-shuffled', 'mixed', 'omit-defaults', 'global-rs')]
+    + [':R9-count-type:' + t for t in EXTRA_INT] + [':R11-query:' + q for q in QUERIES])] + [
+    'corr:R13-derived-copy', 'corr:R13-derived-deepcopy', 'corr:R13-derived-pickle',
+    'oracle:R13-derived:copy', 'oracle:R13-derived:deepcopy', 'oracle:R13-derived:pickle', 'oracle:R13-derived:similar',
+    'oracle:R8-ctor-vs-setter', 'oracle:R8-wrapper-equivalence', 'oracle:R8-function-call-forms',
+    'oracle:R10-function-heterogeneous-inputs']
+
+
+def robustness2_campaign(ctx, robust2, n):
+    """first-principles oracles of the second robustness round"""
+    for fam, case in robust2:
+        robustness_branches(ctx, case, 'oracle')
+        run_oracle(ctx, 'generate_more_samples', case)
+        run_oracle(ctx, 'generate_more_samples.twin', case)
+    shapes = [None, 2, [2, 1], [], [3], {'t': 'np:int64', 'v': 3}, {'t': 'list', 'v': [2, 2]}, {'t': 'mixed', 'v': [2, 1]}]
+    for i in range(n):
+        cfg = small_cfg(ctx.rng, L=ctx.rng.choice([1, 3, 8]), shape=shapes[i % len(shapes)],
+                        shape0=ctx.rng.choice([None, 4, [1, 2], []]),
+                        ops=[[ctx.rng.choice('gs'), ctx.rng.choice([None, 1, 7, {'form': 'kw', 'a': 3}])]
+                             if False else ['g', ctx.rng.choice([None, 1, 7, {'form': 'kw', 'a': 3}])]
+                             for _ in range(ctx.rng.randint(1, 4))] + [['s', 5], ['g', 2]])
+        run_oracle(ctx, 'JakesSampleGenerator.ctor_vs_setter', cfg)
+        ctx.branch('oracle:R8-ctor-vs-setter')
+    for i in range(n):
+        cfg = valid_int_history(ctx.rng, ctx.rng.randint(0, 5))
+        if isinstance(cfg['seed'], dict):
+            cfg['seed'] = ctx.rng.below(1 << 31)
+        cfg['L'] = min(cfg['L'], 8)
+        cfg.update({'tail': ctx.rng.randint(1, 40), 'call': [None, 'kw', 'mixed'][i % 3]})
+        run_oracle(ctx, 'generate_jakes_samples.vs_generator', cfg)
+        ctx.branch('oracle:R8-wrapper-equivalence')
+    hows = ['copy', 'deepcopy', 'pickle', 'similar']
+    for i in range(max(n, 4)):
+        run_oracle(ctx, 'generate_more_samples.derived', derived_case(ctx.rng, hows[i % 4]))
+        ctx.branch('oracle:R13-derived:' + hows[i % 4])
+    combos = [('float32', 'C'), ('C', 'float32'), ('list', 'F'), ('strided', 'list'), ('int', 'C'), ('C', 'int'),
+              ('nested', 'float32'), ('float32', 'nested'), ('int', 'list'), ('readonly', 'nested')]
+    for i in range(max(n, len(combos))):
+        cfg = gen_config(ctx.rng)
+        cfg['L'] = min(cfg['L'], 8)
+        cap = max(1, min(2000, BUDGET // (cfg['L'] * entry_count(cfg['shape']))))
+        N = ctx.rng.choice([0, 1, 100, ctx.rng.randint(1, cap)])
+        k0 = ctx.rng.choice([0, 0, gen_skip(ctx.rng)])
+        cfg.update({'N': N, 'k0': min(k0, 10 ** 10 - N), 'arr': combos[i % len(combos)][0],
+                    'arr_psi': combos[i % len(combos)][1], 'call': [None, 'kw', 'mixed', 'omit-defaults'][i % 4]})
+        if cfg['call'] == 'omit-defaults' and i % 8 == 3:
+            cfg.update({'Ts': 1e-3, 'L': 8, 'shape': None, 'k0': 0, 'N': 100})
+        run_oracle(ctx, 'generate_jakes_samples', cfg)
+        ctx.branch('oracle:R10-function-heterogeneous-inputs')
+        ctx.branch('oracle:R8-function-call-forms')
+
+
 def robustness_campaign(ctx, robust, n_life):
     """first-principles oracles on the robustness families: closed form (o_history, includes the R3 / R4
     checks) and canonical twin (o_twin) on every case, life-cycle oracle (R7), free function inputs"""
@@ -1940,7 +2369,7 @@ def check(ctx):
     ctx.required_branches = ['op:gen', 'op:gen-default', 'op:skip', 'op:set-shape', 'shape:none', 'shape:int',
                              'long-run-request(k>=2^21)', 'position>=1e9', 'value-tol<1e-6', 'Fd=0',
                              'magnitude:at-bound', 'oracle:long-run', 'corpus', 'tiny-request-history',
-                             'oracle:tiny-request-history'] + ROBUST_BRANCHES
+                             'oracle:tiny-request-history'] + ROBUST_BRANCHES + ROBUST2_BRANCHES
     n_hist = 600 if quick else 6000
     cases = [dict(WITNESS)]
     cases += [gen_history(ctx.rng) for _ in range(n_hist)]
@@ -1957,6 +2386,9 @@ def check(ctx):
     cases += small
     robust = robustness_cases(ctx.rng, 40 if quick else 600)
     cases += [c for _, c in robust if c.get('Ts') != 0]
+    robust2 = robustness2_cases(ctx.rng, 25 if quick else 400, quick)
+    cases += [c for _, c in robust2]
+    cases += [fork_case(ctx.rng, how) for how in ('copy', 'deepcopy', 'pickle') for _ in range(6 if quick else 100)]
     try:
         correspondence(ctx, cases)
         rejection_correspondence(ctx)
@@ -1972,6 +2404,7 @@ def check(ctx):
     else:
         oracle_campaign(ctx, 6000, 3000, 1000, 1000, 1000, longs, n_tiny=10, tiny_len=30000)
     robustness_campaign(ctx, robust, 60 if quick else 800)
+    robustness2_campaign(ctx, robust2, 40 if quick else 600)
     ctx.extra['max_error_over_tolerance'] = {k: (round(v, 4) if isinstance(v, float) else v) for k, v in STATS.items()}
     ctx.sample({'call': 'generate_more_samples', 'case': WITNESS,
                 'check': 'skip 2048002 then request 1 sample: 1 sample, value = Jakes sum at 2048003*Ts'})
